@@ -1,7 +1,7 @@
 package roman
 
 //verif:harness C18 quick n=0..7
-//verif:harness C18 thorough n=8..10
+//verif:harness C18 thorough n=8..8
 func H_C18_totalRoman(n int) {
 	vMergeOutcomes()
 	in := vBytes("in", n)
